@@ -16,6 +16,23 @@ def DirReadable (F : FS) : Prop :=
 def diskValue (F : FS) (k : Key) : Option Bytes :=
   (ilookup k (diskIndex F)).map fun r => (((dlookup r.seq F.dats).getD []).drop r.pos).take r.len
 
+/-- the log of `F` exists but `loadlog` will discard (remove) it: its header cannot be read or carries another
+    snapshot version -/
+def LogDiscarded (F : FS) : Prop := ∃ f, F.log = some f ∧ logBody f (snapVer F) = none
+
+/-- what `NewDBExt` needs from a directory to come up with the invariants: the log is absent, canonical for the
+    snapshot's version, or will be discarded; the version fits; every record can be read back -/
+structure OpenOK (F : FS) : Prop where
+  log : (∃ E, (∀ e ∈ E, EntryFits e) ∧ LogState F (snapVer F) E) ∨ LogDiscarded F
+  ver : snapVer F < 2^32
+  readable : DirReadable F
+
+/-- the log of `F` is the one of `F0`, or `F0` had none and `F` holds a freshly created one (empty, or header only) -/
+def LogRel (F0 F : FS) : Prop :=
+  F.log = F0.log ∨ (F0.log = none ∧ (F.log = some [] ∨ F.log = some (le32 (snapVer F0))))
+
+theorem LogRel.refl (F : FS) : LogRel F F := Or.inl rfl
+
 /-- opening (LoadData) a readable directory never fails and gives every key its disk value -/
 theorem open_readable (F : FS) (h : DirReadable F) (vol : Bool) (opts : Opts) :
     (openDB F vol true opts).failed = none ∧
@@ -224,20 +241,44 @@ theorem logcreate_prefix (F : FS) (ver : Nat) (hv : ver < 2^32) (hver : snapVer 
 theorem snapVer_congr (F0 F : FS) (h0 : F.idx0 = F0.idx0) (h1 : F.idx1 = F0.idx1) : snapVer F = snapVer F0 := by
   unfold snapVer pickIdx; rw [h0, h1]
 
+theorem logcreate_log (F : FS) (ver : Nat) (hl : F.log = none) (n : Nat) :
+    (F.applyAll (([Effect.createLog, .appendLog (le32 ver)] : List Effect).take n)).log = F.log ∨
+    (F.applyAll (([Effect.createLog, .appendLog (le32 ver)] : List Effect).take n)).log = some [] ∨
+    (F.applyAll (([Effect.createLog, .appendLog (le32 ver)] : List Effect).take n)).log = some (le32 ver) := by
+  match n with
+  | 0 => exact Or.inl rfl
+  | 1 => exact Or.inr (Or.inl rfl)
+  | m + 2 =>
+    refine Or.inr (Or.inr ?_)
+    simp only [List.take_succ_cons, List.take_nil, FS.applyAll]
+    unfold FS.apply
+    simp
+
+/-- a directory that grew out of an openable one (same index files, same or freshly created log, data files only
+    longer) is openable -/
+theorem openOK_of_grown {F0 F : FS} {keep : Nat → Prop} (h : Grown F0 F keep) (hl : LogRel F0 F) (h0 : OpenOK F0)
+    (hlog0 : ∃ E, (∀ e ∈ E, EntryFits e) ∧ LogState F0 (snapVer F0) E)
+    (hk : ∀ kr ∈ diskIndex F0, keep kr.2.seq) : OpenOK F := by
+  have hsv : snapVer F = snapVer F0 := snapVer_congr F0 F h.idx0 h.idx1
+  refine ⟨?_, by rw [hsv]; exact h0.ver, (h.readable h0.readable hk).1⟩
+  rw [hsv]
+  obtain ⟨E, hE, hs⟩ := hlog0
+  rcases hl with hl | ⟨hn, hl | hl⟩
+  · refine Or.inl ⟨E, hE, ?_⟩
+    unfold LogState at hs ⊢
+    rw [hl]; exact hs
+  · refine Or.inr ⟨[], hl, ?_⟩
+    unfold logBody; simp
+  · refine Or.inl ⟨[], (fun e he => by cases he), Or.inr ?_⟩
+    rw [hl]; simp [encLog]
+
 /-- Every directory that exists strictly inside sync() — after any number of its file operations except the
     last one (the Write of the collected entries to qdbidx.log) — reopens without failure and gives every key
     exactly the value the directory held before sync() started. -/
-theorem sync_prefix (db : DB) (inv : DiskInv db) (n : Nat) (hn : n < (syncEffs db).length) :
-    DirReadable (db.fs.applyAll ((syncEffs db).take n)) ∧
-    ∀ k, diskValue (db.fs.applyAll ((syncEffs db).take n)) k = diskValue db.fs k := by
+theorem sync_prefix_grown (db : DB) (inv : DiskInv db) (n : Nat) (hn : n < (syncEffs db).length) :
+    Grown db.fs (db.fs.applyAll ((syncEffs db).take n)) (fun t => db.datOpen = true ∨ t ≠ db.dataSeq) ∧
+    LogRel db.fs (db.fs.applyAll ((syncEffs db).take n)) := by
   let keep : Nat → Prop := fun t => db.datOpen = true ∨ t ≠ db.dataSeq
-  have hR0 : DirReadable db.fs := fun kr hkr => ⟨inv.dflags kr hkr, inv.dreads kr hkr⟩
-  have hkeep : ∀ kr ∈ diskIndex db.fs, keep kr.2.seq := by
-    intro kr hkr
-    cases ho : db.datOpen with
-    | true => exact Or.inl ho
-    | false => exact Or.inr (inv.dat2 ho kr hkr)
-  suffices hG : Grown db.fs (db.fs.applyAll ((syncEffs db).take n)) keep from hG.readable hR0 hkeep
   -- split the prefix along the three phases
   obtain ⟨c_open, c_same, c_new, _⟩ := checkDat_post db
   let cd := cdEffs db
@@ -291,13 +332,15 @@ theorem sync_prefix (db : DB) (inv : DiskInv db) (n : Nat) (hn : n < (syncEffs d
   obtain ⟨gB, lB⟩ := hB
   -- phase 3
   have hC : Grown ((db.fs.applyAll (cd.take n)).applyAll (ws.take (n - cd.length)))
-      (((db.fs.applyAll (cd.take n)).applyAll (ws.take (n - cd.length))).applyAll (cl.take (n - cd.length - ws.length))) keep := by
+      (((db.fs.applyAll (cd.take n)).applyAll (ws.take (n - cd.length))).applyAll (cl.take (n - cd.length - ws.length))) keep ∧
+      LogRel db.fs
+      (((db.fs.applyAll (cd.take n)).applyAll (ws.take (n - cd.length))).applyAll (cl.take (n - cd.length - ws.length))) := by
     cases hlo : db.logOpen with
     | true =>
       have hcl : cl = [] := by show clEffs db = []; unfold clEffs; simp [hlo]
       rw [hcl]
       simp only [List.take_nil, FS.applyAll]
-      exact Grown.refl _ _
+      exact ⟨Grown.refl _ _, Or.inl lB⟩
     | false =>
       have hcl : cl = [.createLog, .appendLog (le32 db.verSeq)] := by
         show clEffs db = _; unfold clEffs; simp [hlo]
@@ -305,7 +348,36 @@ theorem sync_prefix (db : DB) (inv : DiskInv db) (n : Nat) (hn : n < (syncEffs d
       have hAB := gA.trans gB
       have hsv : snapVer ((db.fs.applyAll (cd.take n)).applyAll (ws.take (n - cd.length))) = db.verSeq :=
         (snapVer_congr _ _ hAB.idx0 hAB.idx1).trans inv.ver
-      exact (logcreate_prefix _ db.verSeq inv.verlt hsv (lB.trans (inv.log1 hlo)) _).mono (fun _ _ => trivial)
-  exact (gA.trans gB).trans hC
+      refine ⟨(logcreate_prefix _ db.verSeq inv.verlt hsv (lB.trans (inv.log1 hlo)) _).mono (fun _ _ => trivial), ?_⟩
+      have hnone := inv.log1 hlo
+      rcases logcreate_log _ db.verSeq (lB.trans hnone) (n - cd.length - ws.length) with h | h | h
+      · exact Or.inl (h.trans lB)
+      · exact Or.inr ⟨hnone, Or.inl h⟩
+      · exact Or.inr ⟨hnone, Or.inr (by rw [inv.ver]; exact h)⟩
+  exact ⟨(gA.trans gB).trans hC.1, hC.2⟩
+
+/-- a reachable state's directory is openable -/
+theorem openOK_of_inv (db : DB) (inv : DiskInv db) : OpenOK db.fs :=
+  ⟨Or.inl (by obtain ⟨E, hE, hs⟩ := inv.logst; exact ⟨E, hE, by rw [inv.ver]; exact hs⟩),
+   by rw [inv.ver]; exact inv.verlt, fun kr hkr => ⟨inv.dflags kr hkr, inv.dreads kr hkr⟩⟩
+
+theorem sync_keep (db : DB) (inv : DiskInv db) :
+    ∀ kr ∈ diskIndex db.fs, (fun t => db.datOpen = true ∨ t ≠ db.dataSeq) kr.2.seq := by
+  intro kr hkr
+  cases ho : db.datOpen with
+  | true => exact Or.inl rfl
+  | false => exact Or.inr (inv.dat2 ho kr hkr)
+
+theorem sync_prefix (db : DB) (inv : DiskInv db) (n : Nat) (hn : n < (syncEffs db).length) :
+    DirReadable (db.fs.applyAll ((syncEffs db).take n)) ∧
+    ∀ k, diskValue (db.fs.applyAll ((syncEffs db).take n)) k = diskValue db.fs k :=
+  (sync_prefix_grown db inv n hn).1.readable (openOK_of_inv db inv).readable (sync_keep db inv)
+
+/-- every directory strictly inside sync() is openable (so that the invariants hold again after NewDBExt) -/
+theorem sync_prefix_ok (db : DB) (inv : DiskInv db) (n : Nat) (hn : n < (syncEffs db).length) :
+    OpenOK (db.fs.applyAll ((syncEffs db).take n)) := by
+  obtain ⟨g, l⟩ := sync_prefix_grown db inv n hn
+  exact openOK_of_grown g l (openOK_of_inv db inv)
+    (by obtain ⟨E, hE, hs⟩ := inv.logst; exact ⟨E, hE, by rw [inv.ver]; exact hs⟩) (sync_keep db inv)
 
 end GocoinV.Proofs.C19
